@@ -3,7 +3,7 @@
 # (quick tier) and print one line per mutant. Applies patches to /repo and undoes them: do not run while another
 # check is using /repo.
 here=$(cd "$(dirname "$0")/.." && pwd); cd $here
-names="$@"; [ -z "$names" ] && names=$(ls seeded)
+names="$@"; [ -z "$names" ] && names=$(ls -d seeded/*/ | xargs -n1 basename)
 for n in $names; do
   d=$here/seeded/$n
   prop=$(python3 -c "import json;print(json.load(open('$d/meta.json'))['property'])")
